@@ -28,14 +28,24 @@ import (
 // ---------------------------------------------------------------------------- whitelist
 
 // gotransFn names one function to translate.
-//   Name: "f", "T.m" (method of T or *T) or "f#n" / "T.m#n" (n-th function literal inside, from 1).
-//   Crit: translate only the critical section: the statements after the first top-level
-//         `recv.Lock()` / `recv.RLock()` statement (the skipped prefix is pinned as a string constant).
-//   As:   name of the generated definition (default: Go name, "_lit<n>" / "_crit" appended).
+//
+//	Name: "f", "T.m" (method of T or *T) or "f#n" / "T.m#n" (n-th function literal inside, from 1).
+//	Crit: translate only the critical section: the statements after the first top-level
+//	      `recv.Lock()` / `recv.RLock()` statement (the skipped prefix is pinned as a string constant).
+//	As:   name of the generated definition (default: Go name, "_lit<n>" / "_crit" appended).
 type gotransFn struct {
 	Name string
 	Crit bool
 	As   string
+	// Frag: translate only the top level statements from the first one whose source text starts with
+	// FragStart up to (and including) the first following one whose text starts with FragEnd (FragEnd
+	// empty: the single statement). Inputs: the variables the fragment reads that are declared
+	// outside it; result: the variables it assigns that are declared outside it or used after it.
+	FragStart, FragEnd string
+	// Skip: top level statements (identified by a prefix of their source text, each must match exactly
+	// one statement) that are left out: the recursion into the parent object in front of a per-object
+	// step. Their text is emitted as the string constant <name>_skipped and pinned by a theorem.
+	Skip []string
 }
 
 type gotransPkgSpec struct {
@@ -47,42 +57,72 @@ type gotransPkgSpec struct {
 var gotransWhitelist = []gotransPkgSpec{
 	{Dir: "pkg/common/resources", Module: "GoResources", Funcs: []gotransFn{
 		{Name: "addVal"}, {Name: "subVal"}, {Name: "mulVal"}, {Name: "mulValRatio"},
-		{Name: "NewResource"}, {Name: "Resource.Clone"}, {Name: "Resource.Prune"},
+		{Name: "NewResource"}, {Name: "var Zero"}, {Name: "Resource.Clone"}, {Name: "Resource.Prune"},
 		{Name: "Resource.AddTo"}, {Name: "Resource.SubFrom"}, {Name: "Resource.MultiplyTo"},
 		{Name: "Add"}, {Name: "Sub"}, {Name: "SubOnlyExisting"}, {Name: "AddOnlyExisting"},
 		{Name: "Resource.fitIn"}, {Name: "Resource.FitIn"}, {Name: "Resource.FitInMaxUndef"}, {Name: "Resource.FitInActual"},
 		{Name: "getShareFairForDenominator"}, {Name: "getFairShare"}, {Name: "CompUsageRatioSeparately"},
-		{Name: "Equals"}, {Name: "DeepEquals"}, {Name: "Resource.MatchAny"},
-		{Name: "IsZero"}, {Name: "EqualsOrEmpty"}, {Name: "Multiply"}, {Name: "MultiplyBy"},
+		{Name: "IsZero"}, {Name: "Multiply"}, {Name: "MultiplyBy"},
 		{Name: "StrictlyGreaterThan"}, {Name: "StrictlyGreaterThanOrEquals"},
 		{Name: "StrictlyGreaterThanZero"}, {Name: "Resource.HasNegativeValue"}, {Name: "Resource.IsEmpty"},
 		{Name: "ComponentWiseMinOnlyExisting"}, {Name: "MergeIfNotPresent"},
+		{Name: "ComponentWiseMin"}, {Name: "ComponentWiseMax"},
 	}},
 	{Dir: "pkg/events", Module: "GoEvents", Funcs: []gotransFn{
 		{Name: "eventRingBuffer.getLowestID"}, {Name: "eventRingBuffer.getLastEventID"},
 		{Name: "eventRingBuffer.id2pos"}, {Name: "eventRingBuffer.updateLowestID"},
-		{Name: "eventRingBuffer.Add", Crit: true},
+		{Name: "eventRingBuffer.Add"},
 		{Name: "eventRingBuffer.getEntriesFromRanges"},
 		{Name: "eventRingBuffer.getEventsFromID"},
-		{Name: "eventRingBuffer.GetRecentEvents", Crit: true},
-		{Name: "eventRingBuffer.Resize", Crit: true},
+		{Name: "eventRingBuffer.GetEventsFromID"},
+		{Name: "eventRingBuffer.GetRecentEvents"},
+		{Name: "eventRingBuffer.GetLastEventID"},
+		{Name: "eventRingBuffer.Resize"},
+		{Name: "EventStore.Store"}, {Name: "EventStore.CollectEvents"},
+		{Name: "EventStore.CountStoredEvents"}, {Name: "EventStore.SetStoreSize"},
 	}},
 	{Dir: "pkg/scheduler/objects", Module: "GoObjects", Funcs: []gotransFn{
 		{Name: "priorityValueByPolicy"},
 		{Name: "Queue.getCurrentPriority"},
-		{Name: "Queue.GetCurrentPriority", Crit: true},
+		{Name: "Queue.GetCurrentPriority"},
 		{Name: "Queue.canRunApp", Crit: true},
 		{Name: "Queue.incRunningApps", Crit: true},
 		{Name: "Queue.decRunningApps", Crit: true},
-		{Name: "Queue.Reserve", Crit: true},
-		{Name: "Queue.UnReserve", Crit: true},
+		{Name: "Queue.Reserve"},
+		{Name: "Queue.UnReserve"},
 		{Name: "Queue.recalculatePriority"},
-		{Name: "Application.GetAskMaxPriority", Crit: true},
-		{Name: "Application.GetSubmissionTime", Crit: true},
+		{Name: "Queue.GetPriorityPolicyAndOffset"},
+		{Name: "Queue.findPreemptionFenceRoot", FragStart: "policy, offset :=", FragEnd: "priorityMap["},
+		{Name: "Queue.isRoot"},
+		{Name: "Queue.allocatedResFits"},
+		{Name: "Queue.resourceFitsAllocated"},
+		{Name: "Queue.updateAllocatedResourceMetrics"},
+		{Name: "Queue.updatePendingResourceMetrics"},
+		{Name: "Queue.TryIncAllocatedResource", Skip: []string{"if sq.parent != nil {"}},
+		{Name: "Queue.DecAllocatedResource", Skip: []string{"if sq.parent != nil {"}},
+		{Name: "Queue.IncAllocatedResource", FragStart: "sq.allocatedResource = resources.Add(", FragEnd: "sq.updateAllocatedResourceMetrics()"},
+		{Name: "Queue.incPendingResource", Skip: []string{"if sq.parent != nil {"}},
+		{Name: "Queue.internalHeadRoom"},
+		{Name: "Allocation.IsForeign"}, {Name: "Allocation.GetAllocatedResource"}, {Name: "Allocation.GetAllocationKey"},
+		{Name: "Node.addAllocationInternal", FragStart: "res := alloc.GetAllocatedResource()", FragEnd: "$"},
+		{Name: "Node.RemoveAllocation", FragStart: "alloc = sn.allocations[allocationKey]", FragEnd: "$"},
+		{Name: "Node.ReplaceAllocation", FragStart: "before := sn.allocatedResource.Clone()", FragEnd: "sn.availableResource.Prune()"},
+		{Name: "Node.refreshAvailableResource"},
+		{Name: "Node.UpdateAllocatedResource"},
+		{Name: "Node.CanAllocate"},
+		{Name: "Node.FitInNode"},
+		{Name: "Node.IsSchedulable"},
+		{Name: "Node.IsReserved"},
+		{Name: "Application.GetAskMaxPriority"},
+		{Name: "Application.GetSubmissionTime"},
 		{Name: "Allocation.LessThan"},
 		{Name: "sortQueuesByPriority#1"},
 		{Name: "sortApplicationsBySubmissionTimeAndPriority#1"},
 		{Name: "sortApplicationsByPriorityAndSubmissionTime#1"},
+	}},
+	{Dir: "pkg/scheduler/ugm", Module: "GoUgm", Funcs: []gotransFn{
+		{Name: "QueueTracker.canRunApp", FragStart: "var running int", FragEnd: "$"},
+		{Name: "QueueTracker.headroom", FragStart: "if !resources.IsZero(qt.maxResources)", FragEnd: "$"},
 	}},
 }
 
@@ -230,6 +270,48 @@ func gotransHasVerifTag(f *ast.File) bool {
 	return false
 }
 
+// declareOpaque: every name pkg.X a file mentions, for a package outside the repository (and not a
+// stub), is declared in the fake package as an opaque named type, so that types like *si.EventRecord
+// can be carried around. (Uses as functions or values then fail to type-check: no type, outside the subset.)
+func (l *gtLoader) declareOpaque(p *gtPkg) {
+	for _, f := range p.files {
+		local := map[string]*types.Package{}
+		for _, im := range f.Imports {
+			path := strings.Trim(im.Path.Value, "\"`")
+			if strings.HasPrefix(path, l.module+"/") || path == "math" || path == "time" {
+				continue
+			}
+			pkg, err := l.Import(path)
+			if err != nil {
+				continue
+			}
+			name := pkg.Name()
+			if im.Name != nil {
+				name = im.Name.Name
+			}
+			local[name] = pkg
+		}
+		ast.Inspect(f, func(n ast.Node) bool {
+			sel, ok := n.(*ast.SelectorExpr)
+			if !ok {
+				return true
+			}
+			id, ok := sel.X.(*ast.Ident)
+			if !ok {
+				return true
+			}
+			pkg, ok := local[id.Name]
+			if !ok || !ast.IsExported(sel.Sel.Name) || pkg.Scope().Lookup(sel.Sel.Name) != nil {
+				return true
+			}
+			tn := types.NewTypeName(token.NoPos, pkg, sel.Sel.Name, nil)
+			types.NewNamed(tn, types.NewStruct(nil, nil), nil)
+			pkg.Scope().Insert(tn)
+			return true
+		})
+	}
+}
+
 // load parses and type-checks the package in <repo>/<rel>.
 func (l *gtLoader) load(rel string) (*gtPkg, error) {
 	if p, ok := l.pkgs[rel]; ok {
@@ -263,6 +345,7 @@ func (l *gtLoader) load(rel string) (*gtPkg, error) {
 	if len(p.files) == 0 {
 		return nil, fmt.Errorf("no Go files in %s", dir)
 	}
+	l.declareOpaque(p)
 	p.info = &types.Info{
 		Types:      map[ast.Expr]types.TypeAndValue{},
 		Defs:       map[*ast.Ident]types.Object{},
